@@ -16,7 +16,7 @@ use common::sys;
 use common::{jo, report, Rng, J};
 use std::os::unix::io::AsRawFd;
 use std::sync::atomic::{AtomicBool, AtomicU64, Ordering};
-use std::sync::{Arc, Barrier};
+use std::sync::Arc;
 
 use vhost::vhost_user::{Frontend, VhostUserFrontend};
 use vhost::{VhostBackend, VhostUserDirtyLogRegion, VringConfigData};
@@ -407,9 +407,15 @@ fn write_history(cfg: &Cfg, rng: &mut Rng, case: &str) {
 }
 
 /// 2..=16 writers, each owning one page (= one bit) of the same one or two log bytes.
+struct SpinBarrier {
+    gen: AtomicU64,
+    done: AtomicU64,
+}
+
 fn concurrent(cfg: &Cfg, rng: &mut Rng, case: &str) {
     let Some(mut w) = world() else { return };
-    let threads = rng.range(2, 16);
+    // (no more spinning writers than cores, the driver thread included)
+    let threads = rng.range(2, 6);
     let base_page = 8 * rng.range(1, 20);
     let reg = Reg::new(base_page * PAGE, 16 * PAGE, 0x7000_0000_0000, 0);
     if w.fe.as_mut().unwrap().set_mem_table(&[reg.info()]).is_err() {
@@ -423,21 +429,34 @@ fn concurrent(cfg: &Cfg, rng: &mut Rng, case: &str) {
         return;
     }
     let Some(mem) = w.mem() else { return };
-    let rounds = cfg.pick(1500, 20_000);
-    let barrier = Arc::new(Barrier::new(threads as usize + 1));
+    // (valgrind runs one thread at a time: few rounds, and the spinners yield)
+    let slow = std::env::var("VERIF_FLAVOUR").is_ok_and(|f| f == "valgrind");
+    let rounds = if slow { 40 } else { cfg.pick(4000, 40_000) };
+    // spin barrier: the writers are released by one store and hit the shared log byte within
+    // nanoseconds of each other (a futex barrier wakes them one after the other)
+    let barrier = Arc::new(SpinBarrier { gen: AtomicU64::new(0), done: AtomicU64::new(0) });
     let stop = Arc::new(AtomicBool::new(false));
     let lost = Arc::new(AtomicU64::new(0));
     let mut hs = Vec::new();
     for t in 0..threads {
         let (m, b, st) = (mem.clone(), barrier.clone(), stop.clone());
         let gpa = (base_page + t) * PAGE + t;
-        hs.push(std::thread::spawn(move || loop {
-            b.wait();
-            if st.load(Ordering::SeqCst) {
-                break;
+        hs.push(std::thread::spawn(move || {
+            let mut seen = 0u64;
+            loop {
+                while b.gen.load(Ordering::Acquire) == seen {
+                    if slow {
+                        std::thread::yield_now();
+                    }
+                    std::hint::spin_loop();
+                }
+                seen += 1;
+                if st.load(Ordering::SeqCst) {
+                    break;
+                }
+                let _ = m.memory().write(&[1u8], GuestAddress(gpa));
+                b.done.fetch_add(1, Ordering::AcqRel);
             }
-            let _ = m.memory().write(&[1u8], GuestAddress(gpa));
-            b.wait();
         }));
     }
     let byte0 = log.offset + base_page / 8;
@@ -451,8 +470,14 @@ fn concurrent(cfg: &Cfg, rng: &mut Rng, case: &str) {
     let mut bad: Option<(u64, Vec<u8>)> = None;
     for round in 0..rounds {
         sys::pwrite(log.file.as_raw_fd(), byte0, &[0, 0]);
-        barrier.wait(); // release the writers
-        barrier.wait(); // all writes done
+        barrier.done.store(0, Ordering::Release);
+        barrier.gen.fetch_add(1, Ordering::AcqRel); // release the writers
+        while barrier.done.load(Ordering::Acquire) < threads {
+            if slow {
+                std::thread::yield_now();
+            }
+            std::hint::spin_loop(); // all writes done
+        }
         let got = sys::pread(log.file.as_raw_fd(), byte0, 2);
         if got != want {
             lost.fetch_add(1, Ordering::SeqCst);
@@ -462,7 +487,7 @@ fn concurrent(cfg: &Cfg, rng: &mut Rng, case: &str) {
         }
     }
     stop.store(true, Ordering::SeqCst);
-    barrier.wait();
+    barrier.gen.fetch_add(1, Ordering::AcqRel);
     for h in hs {
         let _ = h.join();
     }
@@ -515,7 +540,7 @@ fn concurrent_relog(cfg: &Cfg, rng: &mut Rng, case: &str) {
             }
         }));
     }
-    let relogs = cfg.pick(300, 6000);
+    let relogs = if std::env::var("VERIF_FLAVOUR").is_ok_and(|f| f == "valgrind") { 20 } else { cfg.pick(300, 6000) };
     let mut failed = None;
     for k in 0..relogs {
         if let Err(e) = w.fe.as_mut().unwrap().set_log_base(0, Some(log.region())) {
@@ -568,12 +593,15 @@ pub fn run(cfg: &Cfg) {
             return;
         }
     }
-    for _ in 0..cfg.pick(2, 8) {
-        let case = format!("conc:{}", rng.0);
-        concurrent(cfg, &mut rng, &case);
-    }
-    for _ in 0..cfg.pick(1, 4) {
-        let case = format!("relog:{}", rng.0);
-        concurrent_relog(cfg, &mut rng, &case);
+    // the spinning-writer parts run in two shards only (they need real cores to overlap)
+    if cfg.shard < 2 {
+        for _ in 0..cfg.pick(4, 12) {
+            let case = format!("conc:{}", rng.0);
+            concurrent(cfg, &mut rng, &case);
+        }
+        for _ in 0..cfg.pick(2, 6) {
+            let case = format!("relog:{}", rng.0);
+            concurrent_relog(cfg, &mut rng, &case);
+        }
     }
 }
